@@ -97,7 +97,7 @@ func Glob(pattern string) ([]string, error) {
 					} else {
 						p += name
 					}
-					if _, err := os.Lstat(p); err == nil {
+					if _, err := os.Lstat(p); err == nil && (sep == "" || isDir(p)) {
 						matches = append(matches, p+sep)
 					}
 				}
@@ -111,6 +111,9 @@ func Glob(pattern string) ([]string, error) {
 					err := glob(p, rx, func(name string) {
 						if p != "." {
 							name = p + name
+						}
+						if sep != "" && !isDir(name) {
+							return
 						}
 						matches = append(matches, name+sep)
 					})
@@ -165,6 +168,13 @@ func glob(path string, rx *regexp.Regexp, fn func(string)) error {
 			}
 		}
 	}
+}
+
+// isDir reports whether path names a directory, following symbolic
+// links.
+func isDir(path string) bool {
+	fi, err := os.Stat(path)
+	return err == nil && fi.IsDir()
 }
 
 func unquote(s string) (string, bool) {
